@@ -2,6 +2,7 @@ package watchereng
 
 import (
 	"fmt"
+	"runtime"
 	"sort"
 	"sync"
 	"testing"
@@ -125,9 +126,9 @@ func replayModel(h []kernel.Step) mstate {
 // enumDepth is the history length of the enumerated part per tier.
 func enumDepth(tier string) int {
 	if tier == "thorough" {
-		return 5
+		return 6
 	}
-	return 4
+	return 5
 }
 
 // chunkDepth is the prefix length that names a chunk (= one run index).
@@ -135,7 +136,7 @@ func chunkDepth(depth int) int {
 	if depth >= 5 {
 		return 3
 	}
-	return 2
+	return 2 // (depth 4 and below: used when a replay file names such a depth)
 }
 
 type enumInfo struct {
@@ -215,6 +216,10 @@ func runChunk(t *testing.T, sc *kernel.Scenario, trace bool) *kernel.Result {
 		hists++
 		for sched := 0; sched < nSchedules; sched++ {
 			cases++
+			if cases%128 == 0 {
+				// the worker collects garbage only between runs (R4); a chunk is many bubbles
+				runtime.GC()
+			}
 			one := schedule(sc, hist, sched, cases)
 			r := runScenario(t, one, false)
 			res.Evals += r.Evals
